@@ -1,6 +1,7 @@
 /- Line-protocol handlers for C08 (tensor representations and conversions). -/
 import OFV.Core.Json
 import OFV.Model.C08
+import OFV.Model.C08Doci
 import OFV.Spec.C08
 import OFV.Handlers.Common
 
@@ -65,6 +66,14 @@ def toMOp (o : Op) : MOp := o.map fun (t, c) => (t.map (·.1), c)
 def ofMOp (o : MOp) : Json := J.ofOp (o.map fun (t, c) => (t.map (fun i => (i, 0)), c))
 
 def tol : Rat := Generated.eqTolerance
+
+def parseDoci (j : Json) : Except String Doci.DOCI := do
+  .ok ⟨← J.nat (← J.field j "n"), ← J.gq (← J.field j "c"), ← parseTensor 1 (← J.field j "hc"),
+       ← parseTensor 2 (← J.field j "hr1"), ← parseTensor 2 (← J.field j "hr2")⟩
+
+def ofDoci (d : Doci.DOCI) : Json :=
+  J.obj [("n", J.ofNat d.n), ("c", J.ofGQ d.constant), ("hc", ofTensor d.hc), ("hr1", ofTensor d.hr1),
+         ("hr2", ofTensor d.hr2)]
 
 def arith (j : Json) : Except String Json := do
   let f ← J.str (← J.field j "f")
@@ -166,6 +175,48 @@ def handle (op : String) (j : Json) : Option (Except String Json) :=
   | "c08.spec_ladder" => some do
     let R ← parseMat (← J.field j "R")
     .ok (J.ofOp (Spec.C08.rotatedLadder R (← J.nat (← J.field j "a")) (← J.nat (← J.field j "act"))))
+  | "c08.doci_tensors" => some do
+    let d ← parseDoci j
+    .ok (J.obj [("n", J.ofNat d.n),
+      ("d", J.ofList (fun (k, t) => Json.arr #[J.ofNatList k, ofTensor t]) (Doci.nBodyTensors tol d))])
+  | "c08.doci_projected" => some do
+    let d ← parseDoci j
+    let r := Doci.projectedIntegrals d.n d.hc d.hr1 d.hr2
+    .ok (J.obj [("one", ofTensor r.1), ("two", ofTensor r.2)])
+  | "c08.doci_getitem" => some do
+    let d ← parseDoci j
+    .ok (ofExcept J.ofGQ (Doci.getitem d (← J.term (← J.field j "args"))))
+  | "c08.doci_qubit" => some do
+    .ok (J.ofOp (Doci.qubitOperator tol (← parseDoci j)))
+  | "c08.doci_from_integrals" => some do
+    let n ← J.nat (← J.field j "n")
+    let r := Doci.dociFromIntegrals n (← parseTensor 2 (← J.field j "one")) (← parseTensor 4 (← J.field j "two"))
+    .ok (J.obj [("hc", ofTensor r.1), ("hr1", ofTensor r.2.1), ("hr2", ofTensor r.2.2)])
+  | "c08.doci_arith" => some do
+    let a ← parseDoci (← J.field j "a")
+    match (← J.str (← J.field j "f")) with
+    | "iadd" => do .ok (ofExcept ofDoci (Doci.iadd a (← parseDoci (← J.field j "b"))))
+    | "isub" => do .ok (ofExcept ofDoci (Doci.isub a (← parseDoci (← J.field j "b"))))
+    | "imulS" => do .ok (ofExcept ofDoci (.ok (Doci.imulS a (← J.gq (← J.field j "c")))))
+    | "idivS" => do .ok (ofExcept ofDoci (.ok (Doci.imulS a (GQ.inv (← J.gq (← J.field j "c"))))))
+    | f => .error s!"bad doci_arith {f}"
+  | "c08.spec_doci_block" => some do
+    -- ⟨D t| A |D s⟩ (fermions on 2n modes, D = doubly occupied) against ⟨t| B |s⟩ (n qubits)
+    let n ← J.nat (← J.field j "n")
+    let A ← J.op (← J.field j "A")
+    let B ← J.op (← J.field j "B")
+    let dbl (s : Nat) : Nat := (List.range n).foldl (fun acc p => if s.testBit p then acc ||| (3 <<< (2 * p)) else acc) 0
+    let bad := (List.range (2 ^ n)).findSome? fun s =>
+      let va := Spec.applyOp .fermion A [dbl s]
+      let vb := Spec.applyOp .qubit B [s]
+      (List.range (2 ^ n)).findSome? fun t =>
+        let a := Spec.GV.coeff va [dbl t]
+        let b := Spec.GV.coeff vb [t]
+        if a == b then none else some (s, t, a, b)
+    match bad with
+    | none => .ok (J.obj [("eq", Json.bool true)])
+    | some (s, t, a, b) => .ok (J.obj [("eq", Json.bool false), ("s", J.ofNat s), ("t", J.ofNat t),
+        ("fermion", J.ofGQ a), ("qubit", J.ofGQ b)])
   | "c08.spec_eq2" => some do
     -- do two expressions over (possibly different) algebras denote the same map on masks < 2^n ?
     let algL ← parseAlg (← J.field j "algL")
